@@ -1,6 +1,6 @@
 (* C07 No harm: stored blob bytes are never modified, truncated or deleted. Statements only. *)
 Require Import Pearl.Base.Prelude Pearl.Storage.Model Pearl.Storage.Spec Pearl.Storage.Inv Pearl.Storage.InvProofs
-               Pearl.Blob.Bytes Pearl.Storage.NoHarmProofs Pearl.Io.Trace.
+               Pearl.Blob.Bytes Pearl.Storage.NoHarmProofs Pearl.Io.Trace Pearl.Io.TraceProofs.
 
 (* After ANY history (data operations, lifecycle, background requests, restarts with and without close,
    index removal), every blob that existed at any earlier point still exists with the same id and its
@@ -30,6 +30,25 @@ Theorem C07_new_blob_id_fresh :
     s_next s <= b_id b'.
 Proof. exact new_blob_id_fresh. Qed.
 
+(* the trace predicate that judges REAL traces (extracted): acceptance means every append to a blob file landed
+   at the end of the file, nothing wrote into the middle of a blob, no blob file was re-created *)
+Theorem C07_trace_append_at_eof :
+  forall (tr1 tr2 : list ev) (i off len : N),
+    judge_from ev_harmless [] (tr1 ++ EvAppend (FBlob, i) off len :: tr2) = true ->
+    match fget (run_evs [] tr1) (FBlob, i) with Some (sz, _) => off = sz | None => True end.
+Proof. exact harmless_meaning. Qed.
+Theorem C07_trace_no_positional_write :
+  forall (tr1 tr2 : list ev) (i off len : N),
+    judge_from ev_harmless [] (tr1 ++ EvWriteAt (FBlob, i) off len :: tr2) = false.
+Proof. exact harmless_no_positional. Qed.
+Theorem C07_trace_no_recreate :
+  forall (tr1 tr2 : list ev) (i : N),
+    judge_from ev_harmless [] (tr1 ++ EvCreate (FBlob, i) :: tr2) = true -> fget (run_evs [] tr1) (FBlob, i) = None.
+Proof. exact harmless_no_recreate. Qed.
+
+Print Assumptions C07_trace_append_at_eof.
+Print Assumptions C07_trace_no_positional_write.
+Print Assumptions C07_trace_no_recreate.
 Print Assumptions C07_append_only.
 Print Assumptions C07_file_bytes_prefix.
 Print Assumptions C07_queries_pure.
